@@ -105,7 +105,7 @@ def run(ctx, replay):
         w = 8
         if thorough:
             runs = [("mc1", cfg(nmx=(1,), kinds="Kinds5", maxmsgs=3)),
-                    ("mc2", cfg(nmx=(2,), stlscert="SmallStlsCert", tlsa="SmallTlsa", kinds="Kinds4",
+                    ("mc2", cfg(nmx=(2,), stlscert="AllStlsCert", tlsa="SmallTlsa", kinds="Kinds4",
                                 maxmsgs=3, dnsfail=False))]
         else:
             runs = [("mc1", cfg(nmx=(1,), kinds="Kinds4", maxmsgs=3)),
@@ -156,13 +156,20 @@ def run(ctx, replay):
                                   stlscert="TwoStlsCert", tlsa="QuickTlsa", nmx=(2,), kinds="Kinds1", maxmsgs=1,
                                   dnsfail=False, slow=("TRUE",), gen=True, tail=GEN_TAIL))]
         if thorough:
-            focus += [("gen-all1", cfg(nmx=(1,), kinds="Kinds3", maxmsgs=2, gen=True, tail=GEN_TAIL))]
+            focus += [("gen-slow3", cfg(polsets="DaneStsLocal", mintls=(0,), minmx=(1,), override=("TRUE",),
+                                        sts=("testing",), stlscert="QuickStlsCert", tlsa="SmallTlsa", nmx=(2,),
+                                        kinds="Kinds3", maxmsgs=1, dnsfail=False, slow=("TRUE",), gen=True,
+                                        tail=GEN_TAIL)),
+                      # every configuration of the 1-MX space with every history of 2 messages
+                      ("gen-all1", cfg(nmx=(1,), kinds="Kinds3", maxmsgs=2, gen=True, tail=GEN_TAIL))]
         for name, text in focus:
             g = ctx.tlc("Remote", None, name=name, workers=4, timeout=1800, cfg_text=text)
             if not g["ok"]:
                 raise vlib.Infra("behaviour generation %s failed: %s %s" % (name, g["invariant"], g["error"]))
             got = behaviours_from(g)
             ctx.cov["exhaustive_" + name] = len(got)
+            if name == "gen-all1" and len(got) > 15000:
+                got = vlib.sample(ctx.rng, got, 15000)     # replayed sample of the complete enumeration
             behs += got
         n1, n2 = (6000, 6000) if thorough else (450, 450)
         sims = [("sim1", n1, cfg(nmx=(1,), kinds="Kinds5", gen=True, tail=GEN_TAIL)),
